@@ -9,6 +9,7 @@ One output line per input line; see harness/cells_common.py for the producer and
   new cell|fixed|g2d | set a c|- | moveto a c | moverel a key | move a Dir k | remove a
   tryrandom 0|1 | randempty d... | randcell d...      -> result | observation dump
   conns c | nbhd c r ic | nbprop c | mask c r ic | nbagents c r ic      -> result
+  connect c c2 key|- | disconnect c c2                                  -> result (`Cell.connect` / `disconnect`)
 -/
 open Mesa.Cells
 
@@ -41,6 +42,7 @@ def fmtErr : Err → String
   | .index => "err Index"
   | .script => "err Script"
   | .noAgent => "err NoAgent"
+  | .type => "err Type"
 
 def fmtRes : Res → String
   | .ok => "ok"
@@ -164,6 +166,19 @@ def stepLine (d : DSt) (ws : List String) : DSt × String :=
   | none => (d, if ws.isEmpty then "bad-op" else "err NoSpace")
   | some sp =>
     match ws with
+    | ["connect", c, c2, key] =>
+      match parseCoord c, parseCoord c2, parseOpt parseCoord key with
+      | some c, some c2, some key =>
+        let (sp', r) := editSp sp (.connect c c2 key)
+        -- the memo tables are dropped when the edit was made (`_forget_neighborhoods`)
+        ({ d with sp := some sp', caches := if r = .ok then d.caches.forget c else d.caches }, fmtRes r)
+      | _, _, _ => (d, "bad-op")
+    | ["disconnect", c, c2] =>
+      match parseCoord c, parseCoord c2 with
+      | some c, some c2 =>
+        let (sp', r) := editSp sp (.disconnect c c2)
+        ({ d with sp := some sp', caches := if r = .ok then d.caches.forget c else d.caches }, fmtRes r)
+      | _, _ => (d, "bad-op")
     | ["conns", c] =>
       match parseCoord c with
       | none => (d, "bad-op")
